@@ -13,7 +13,7 @@ CFG = dict(
           "allocation 0-8 items, or fenced static storage of 1-40 items, possibly init_static_from_initialized) and a "
           "PRNG-derived sequence of 10-150 operations (push/pop back and front, set_at at index <len, =len, len+1..len+40 and "
           "at indices whose byte size overflows size_t, get_at, get_at_ptr, front, back, erase first/middle/last/beyond, "
-          "pop_front_n 0/1/len-1/len/len+1/SIZE_MAX, swap incl. equal indices, sort, copy between the lists, shrink_to_fit, "
+          "pop_front_n 0/1/len-1/len/len+1/SIZE_MAX and counts whose byte size wraps size_t (SIZE_MAX/item+1+j, 2^63+j, 2^k+j), swap incl. equal indices, sort, copy between the lists, shrink_to_fit, "
           "clear, swap_contents, ensure_capacity, clean_up/clean_up_secure + re-init); after EVERY operation both lists are "
           "compared with a reference vector (length, byte capacity rule, block size of the real allocation, every defined "
           "element's bytes, front/back/get_at/get_at_ptr, canaries); operations the model predicts to fail and all read-only "
